@@ -206,12 +206,11 @@ Definition ta_reserve (t : tree) (s : st) (cid : nat) (g : grant) : res st :=
     if negb (subseteqb iso (free_iso s p)) then Err (ErrGuard 6)
     else if negb (subseteqb ex (free_shar s p)) then Err (ErrGuard 7)
     else if alloc_shared t s p <? 1000 * csize ex + g_portion g then Err ErrNoCapacity
-    (* like an allocation, a reinstated grant leaves the pools it takes CPUs from (its own included) what they need
+    (* like an allocation, a reinstated grant leaves the pools it takes CPUs from (its own included) what they need:
+       the shared capacity granted there, and a CPU for the containers already running on the shared ones
        (shortWithout; the code tests the non-isolated part of the exclusive CPUs, which removes the same CPUs from
-       every sharable set of a well-formed tree) ... *)
+       every sharable set of a well-formed tree) *)
     else if negb (spare_allb t s p (g_excl g)) then Err (ErrGuard 13)
-    (* ... and needs a sharable CPU itself if its container runs on the shared ones *)
-    else if (bool_decide (g_excl g = ∅) || (0 <? g_portion g)) && bool_decide (free_shar s p ∖ g_excl g = ∅) then Err (ErrGuard 14)
     else
       let s1 := account_alloc t s p (g_excl g) in
       Ok (set_grants (add_shared s1 p (g_portion g)) (<[cid := g]> (grants s1)))
